@@ -20,6 +20,7 @@ EXPLANATION = (
     " (PARSE-ERROR-DROPPED) a speculative sub-parse whose errors are discarded and replaced by whatever fails next (two known findings); (NO-STD prelude) collisions with the prelude's imports are located in the prelude (known finding)."
     " (CHILD-SPAN) a child checked against its own positional or named expectation (argument i against parameter i, a blob field value against the field of that name) is blamed at the child's span."
     ' (DUP-ORDER) the loops that register names and report the one found taken run in source order, so the reported definition is the later one.'
+    ' (VISIT-dep, shared with C11) a mismatch between literal arguments and parameters is found at the call because the callee is checked first.'
 )
 UNDECIDED = "that each error's span is the *most helpful* one (which child's span is chosen is a matter of taste); column exactness of rendered underlines."
 
